@@ -76,7 +76,14 @@ def check_message(H, m, suffix, ctx):
                       dict(msg=m, built=bytes(built)[:64], reference=ref[:64]),
                       dict(kind="msg", msg=m, suffix=suffix))
         ok = False
-    parsed, rest = H.SOMEIPHeader.parse(bytes(built) + suffix)
+    try:
+        parsed, rest = H.SOMEIPHeader.parse(bytes(built) + suffix)
+    except Exception as exc:  # noqa: B902 - a valid message followed by any suffix must decode
+        ctx.count("parse_roundtrip")
+        ctx.violation("parse-rejects-a-message-it-built:" + type(exc).__name__,
+                      dict(msg=dict(m, payload=m["payload"][:32]), payload_len=len(m["payload"]), suffix=suffix[:64], exc=repr(exc)[:200]),
+                      dict(kind="msg", msg=m, suffix=suffix))
+        return False
     ctx.count("parse_roundtrip")
     if not _same(H, parsed, m) or parsed != lm or bytes(rest) != suffix:
         ctx.violation("parse-does-not-return-message-and-suffix",
